@@ -250,7 +250,7 @@ func sanitizeMySQLColumnType(colType string) (string, error) {
 
 	upperType := strings.ToUpper(strings.TrimSpace(colType))
 
-	if !mysqlColumnTypePattern.MatchString(colType) {
+	if !mysqlColumnTypePattern.MatchString(colType) || hasTopLevelComma(colType) {
 		return "", fmt.Errorf("invalid column type: %s", colType)
 	}
 
